@@ -76,7 +76,7 @@ def exc_name(ex):
             return name
     return None
 
-FLOWS = [0.5, 1., 2., 4., 8., 12.5, 0.25, 3., 0.001, 1000., 30., 10.]
+FLOWS = [0.5, 1., 2., 4., 8., 12.5, 0.25, 3., 2. ** -10, 1000., 30., 10., 2. ** -34]     # incl. a trace amount (5.8e-11 kmol/hr)
 TS = [300., 350.5, 360., 400.25, 330.]
 PS = [50000., 101325., 202650., 20000., 1e6]
 VS = [0., 1., 0.5, 0.25, 0.75, 0.125, 0.9, 1.5, -0.25, 1e-7]
@@ -168,6 +168,7 @@ REAL_MIX = [
     {'Water': 30., 'N2': 3.}, {'Water': 20., 'Ethanol': 5., 'N2': 1., 'CO2': 0.5}, {'Water': 20., 'Ethanol': 5., 'Glucose': 2.},
     {'Water': 20., 'Methanol': 5., 'Salt_': 1.}, {'Water': 20., 'Ethanol': 5., 'Methanol': 2., 'N2': 0.5, 'Salt_': 0.5, 'Glucose': 1.},
     {'Water': 12.5}, {'Ethanol': 4., 'Glucose': 1.}, {'N2': 3., 'Glucose': 1.}, {'Water': 0.001, 'Ethanol': 1000.},
+    {'Water': 30., 'Ethanol': 10., 'Methanol': 2. ** -30}, {'Water': 2. ** -31, 'Ethanol': 2. ** -32},     # a trace component; a tiny stream
 ]
 
 def gen_real_case(rng):
@@ -305,7 +306,22 @@ def gen_cases(rng, tier):
     cases += [gen_sleh_case(rng) for _ in range(n_sleh)]
     cases += [gen_lle_pf_case(rng) for _ in range(n_pf[0])] + [gen_pf_case(rng) for _ in range(n_pf[1])]
     cases += [gen_vleh_case(rng, 'stub') for _ in range(n_vleh[0])] + [gen_vleh_case(rng, 'real') for _ in range(n_vleh[1])]
+    nb = 12 if tier == 'quick' else 100
+    cases += [gen_band_case(rng, 'stub') for _ in range(2 * nb)] + [gen_band_case(rng, 'real') for _ in range(nb)]
+    cases += [gen_near_bubble_case(rng) for _ in range(nb)]
+    if os.environ.get('VERIF_PENDING'):
+        cases += PENDING          # witnesses of defects whose fix (pending_fixes/) is not in /repo yet
     return cases
+
+# Witnesses of defects of the unchanged tree for which a fix is proposed in pending_fixes/ (run with VERIF_PENDING=1; they move
+# to CORPUS once the fix is in /repo -- and the model of _lever_rule gets the same clip).
+PENDING = [
+    # _lever_rule: split fraction in (1, 1 + 1e-5] is clamped to 1 and v = F * y is written unclipped: liquid = mol - F y < 0
+    {'kind': 'vle', 'mode': 'real', 'phases': 'lg', 'l': [30., 10., 0., 0., 0., 0., 0.], 'g': [0.] * 7, 's': [0.] * 7,
+     'spec': {'P': 101325., 'y': ['band', 2. ** -18]}, 'sk': 'Py', 'T0': 298.15, 'P0': 101325., 'co': None, 'draws': []},
+    {'kind': 'vle', 'mode': 'real', 'phases': 'lg', 'l': [2., 0., 8., 0., 0., 0., 0.], 'g': [0.] * 7, 's': [0.] * 7,
+     'spec': {'T': 350., 'y': ['band', 2. ** -20]}, 'sk': 'Ty', 'T0': 298.15, 'P0': 101325., 'co': None, 'draws': []},
+]
 
 # ------------------------------------------------------------------ implementation side: VLE
 class Rec:
@@ -316,8 +332,9 @@ class Rec:
         d = self.case['draws']
         x = d[self.di % len(d)]; self.di += 1
         return alphabet[int(x * len(alphabet)) % len(alphabet)]
-    def add(self, kind, payload):
-        self.events.append([self.tick, kind, payload]); self.tick += 1
+    def add(self, kind, payload, args=None):
+        """args: the scalar arguments the oracle was called with (T or P for bubble / dew, (T, P) for the fixed-point solver)"""
+        self.events.append([self.tick, kind, payload, args]); self.tick += 1
 
 def from_vle(depth=2):
     return sys._getframe(depth).f_code.co_filename.endswith('vle.py')
@@ -354,20 +371,22 @@ def install_stubs(rec, case, vleobj):
     def comp(n):
         return np.array([rec.draw(COMP) for _ in range(n)], float)
     def solve_Py(self, z, T, liquid_conversion=None):
-        val = base.P * rec.draw(PFAC); y = comp(len(z)); rec.add('b', [val, fl(y)]); return val, y
+        val = base.P * rec.draw(PFAC); y = comp(len(z)); rec.add('b', [val, fl(y)], [float(T)]); return val, y
     def solve_Ty(self, z, P, liquid_conversion=None):
-        val = base.T + rec.draw(TOFF); y = comp(len(z)); rec.add('b', [val, fl(y)]); return val, y
+        val = base.T + rec.draw(TOFF); y = comp(len(z)); rec.add('b', [val, fl(y)], [float(P)]); return val, y
     def solve_Px(self, z, T, gas_conversion=None):
-        val = base.P * rec.draw(PFAC); x = comp(len(z)); rec.add('d', [val, fl(x)]); return val, x
+        val = base.P * rec.draw(PFAC); x = comp(len(z)); rec.add('d', [val, fl(x)], [float(T)]); return val, x
     def solve_Tx(self, z, P, gas_conversion=None):
-        val = base.T + rec.draw(TOFF); x = comp(len(z)); rec.add('d', [val, fl(x)]); return val, x
+        val = base.T + rec.draw(TOFF); x = comp(len(z)); rec.add('d', [val, fl(x)], [float(P)]); return val, x
     p.set(BubblePoint, 'solve_Py', solve_Py); p.set(BubblePoint, 'solve_Ty', solve_Ty)
     p.set(DewPoint, 'solve_Px', solve_Px); p.set(DewPoint, 'solve_Tx', solve_Tx)
-    VFAC = [-0.5, 0., 0.3125, 0.4375, 0.8125, 1., 1.5, 0.0625]   # disjoint from VS: no exact V_bubble == V ties (decided by rounding)
+    # disjoint from VS (no exact V_bubble == V ties) and without 1.0 (v == mol exactly in floats but not after the exact
+    # rational sum of the model: a tie that rounding decides; 1.5 reaches the same clip)
+    VFAC = [-0.5, 0., 0.3125, 0.4375, 0.8125, 0.9375, 1.5, 0.0625]
     def fixed_point(self, pcf_Psat_over_P, T, P, gas_conversion, liquid_conversion):
         mol = np.asarray(self._mol_vle, float)
         raw = np.array([m * rec.draw(VFAC) for m in mol], float)
-        rec.add('v', fl(raw)); return raw
+        rec.add('v', fl(raw), [float(T), float(P)]); return raw
     p.set(vm.VLE, '_solve_v_fixed_point', fixed_point)
     def IQ(f, x0, x1, y0=None, y1=None, x=None, xtol=0., ytol=5e-8, args=(), **kw):
         n = rec.draw([0, 1, 1, 2, 3])
@@ -403,7 +422,7 @@ def install_recorders(rec, vleobj):
         orig = cls.__dict__[name]
         def w(self, *a, **k):
             if not from_vle(): return orig(self, *a, **k)
-            slot = len(rec.events); rec.add(kind, None)     # stays None if the solver raises
+            slot = len(rec.events); rec.add(kind, None, [float(a[1])])     # payload stays None if the solver raises
             r = orig(self, *a, **k)
             rec.events[slot][2] = [float(r[0]), fl(r[1])]
             return r
@@ -412,7 +431,7 @@ def install_recorders(rec, vleobj):
     wrap_bd(DewPoint, 'solve_Px', 'd'); wrap_bd(DewPoint, 'solve_Tx', 'd')
     orig_fp = vm.VLE.__dict__['_solve_v_fixed_point']
     def fixed_point(self, *a):
-        slot = len(rec.events); rec.add('v', None)
+        slot = len(rec.events); rec.add('v', None, [float(a[1]), float(a[2])])
         r = orig_fp(self, *a)
         rec.events[slot][2] = fl(r)
         return r
@@ -431,7 +450,7 @@ def install_recorders(rec, vleobj):
         orig = getattr(Mix, name)
         def w(self, *a, **k):
             if not from_vle(): return orig(self, *a, **k)
-            slot = len(rec.events); rec.add(kind, None)
+            slot = len(rec.events); rec.add(kind, None, [float(a[-2]), float(a[-1])])   # (.., T, P)
             r = orig(self, *a, **k)
             rec.events[slot][2] = float(r)
             return r
@@ -453,14 +472,42 @@ def snapshot(s):
     oth = [rows[ph] for ph, _ in tuple(s.imol) if ph not in 'lg']
     return {'l': rows['l'], 'g': rows['g'], 'oth': oth, 'T': float(s.T), 'P': float(s.P)}
 
+def band_composition(case, spec, s):
+    """x= / y= specification that puts the lever-rule split fraction just outside [0, 1] but inside its +-1e-5 tolerance band,
+    computed from the REAL bubble / dew point of the feed: ['band', eps]"""
+    e = env(); tmo = e['tmo']
+    tot = np.array(case['l'][:3]) + np.array(case['g'][:3])
+    ix = [i for i in range(3) if tot[i] > 0]
+    if len(ix) != 2: return [0.5, 0.5]
+    z = tot[ix] / tot[ix].sum()
+    chems = [e['thermo'].chemicals.tuple[i] for i in ix]
+    key = 'x' if 'x' in spec else 'y'
+    eps = spec[key][1]
+    if key == 'x':
+        bp = tmo.equilibrium.BubblePoint(chems, e['thermo'])
+        y = bp.solve_Py(z, spec['T'])[1] if 'T' in spec else bp.solve_Ty(z, spec['P'])[1]
+        x0 = (z[0] + eps * y[0]) / (1. + eps)              # split fraction = -eps
+        return [float(x0), float(1. - x0)]
+    dp = tmo.equilibrium.DewPoint(chems, e['thermo'])
+    x = dp.solve_Px(z, spec['T'])[1] if 'T' in spec else dp.solve_Tx(z, spec['P'])[1]
+    y0 = x[0] + (z[0] - x[0]) / (1. + eps)                   # split fraction = 1 + eps
+    return [float(y0), float(1. - y0)]
+
 def resolve_spec(case, s):
     spec = dict(case['spec'])
+    for k in ('T', 'P'):
+        if isinstance(spec.get(k), list) and spec[k][0] == 'cur':
+            spec[k] = float(getattr(s, k))                 # the stream's current T (P): e.g. the T a V,P flash just returned
+    for k in ('x', 'y'):
+        if k in spec and spec[k] and spec[k][0] == 'band':
+            spec[k] = band_composition(case, spec, s)
     for k in ('H', 'S'):
         if k in spec and isinstance(spec[k], list):
             # real mode: a fraction between the all-liquid and all-vapour values at a reference state
             e = env(); tmo = e['tmo']
             tot = np.array(case['l']) + np.array(case['g'])
-            ref = tmo.MultiStream(None, T=spec.get('T', 355.), P=spec.get('P', 101325.), phases='lg', thermo=e['thermo'])
+            ref = tmo.MultiStream(None, T=spec.get('T', 355.), P=spec.get('P', 101325.), phases=case.get('phases', 'lg'), thermo=e['thermo'])
+            if 's' in case.get('phases', 'lg'): ref.imol['s'] = np.array(case['s'], float)     # material in other phases stays where it is
             ref.imol['l'] = tot; lo = getattr(ref, k)
             ref.imol['l'] = 0 * tot; ref.imol['g'] = tot; hi = getattr(ref, k)
             spec[k] = float(lo + spec[k][1] * (hi - lo))
@@ -486,6 +533,42 @@ def post_info(v, sk, spec):
         if 'T' in spec: chem['Psat'] = float(c.Psat(spec['T']))
         if 'P' in spec: chem['Tsat'] = float(c.Tsat(spec['P'], check_validity=False))
     return {'lims': [float(x) for x in lims], 'chem': chem, 'N': None if N is None else int(N)}
+
+def gen_near_bubble_case(rng):
+    """real solvers, two volatile chemicals only: a P,V flash at a tiny vapour fraction, then T,P at the temperature it returned --
+    a T,P flash ON the bubble curve up to solver tolerance (the closed-form Rachford-Rice fraction is <= 0 there)"""
+    n = len(IDS)
+    i, j = rng.sample(range(3), 2)
+    l = [0.] * n; l[i] = rng.choice([0.5, 10., 30., 0.0009765625]); l[j] = rng.choice([0.5, 10., 30.])
+    P = rng.choice([101325., 500000., 50000.])
+    ops = [['vle', 'PV', {'P': P, 'V': rng.choice([1e-9, 1e-5, 1e-3, 1e-7])}], ['vle', 'TP', {'T': ['cur'], 'P': P}]]
+    if rng.random() < 0.5: ops += [['vle', 'PV', {'P': P, 'V': 1. - rng.choice([1e-9, 1e-5, 1e-3])}], ['vle', 'TP', {'T': ['cur'], 'P': P}]]
+    return {'kind': 'vleh', 'mode': 'real', 'phases': 'lg', 'l': l, 'g': [0.] * n, 's': [0.] * n, 'T0': 298.15, 'P0': 101325.,
+            'co': None, 'draws': [0.5], 'ops': ops, 'spec': {}, 'sk': 'TP'}
+
+def gen_band_case(rng, mode):
+    """x= / y= specification whose lever-rule split fraction lies just outside [0, 1] but inside the +-1e-5 band that _lever_rule
+    accepts: -eps through x=, 1 + eps through y="""
+    n = len(IDS)
+    eps = rng.choice([2. ** -18, 2. ** -20, 2. ** -23])
+    i, j = sorted(rng.sample(range(3), 2))
+    l = [0.] * n; g = [0.] * n
+    l[i] = rng.choice([1., 2., 8., 30., 0.5]); l[j] = rng.choice([1., 4., 10., 0.25]); g[i] = rng.choice([0., 1.])
+    key = 'x' if mode == 'real' else rng.choice('xy')     # (real solvers, y= side: defect of the unchanged tree, see PENDING)
+    first = rng.choice('TP')
+    spec = {first: rng.choice(TS) if first == 'T' else rng.choice(PS[:3])}
+    draws = [rng.random() for _ in range(48)]
+    if mode == 'real':
+        spec = {first: rng.choice([350., 360.]) if first == 'T' else 101325.}
+        spec[key] = ['band', eps]
+    else:
+        z0 = (l[i] + g[i]) / (l[i] + g[i] + l[j])
+        o0 = COMP[int(draws[1] * len(COMP)) % len(COMP)]          # first entry of the composition the stubbed bubble / dew point returns
+        if key == 'x': a0 = (z0 + eps * o0) / (1. + eps)          # split fraction = -eps
+        else: a0 = o0 + (z0 - o0) / (1. + eps)                    # split fraction = 1 + eps
+        spec[key] = [a0, 1. - a0]
+    return {'kind': 'vle', 'mode': mode, 'phases': 'lg', 'l': l, 'g': g, 's': [0.] * n, 'spec': spec, 'sk': first + key,
+            'T0': 298.15, 'P0': 101325., 'co': lin_coefs(rng), 'draws': draws}
 
 def gen_vleh_case(rng, mode='stub'):
     """a history of VLE calls on ONE stream (one persistent VLE object); between the calls the material is redistributed over
@@ -520,12 +603,25 @@ def gen_vleh_case(rng, mode='stub'):
         else: ops.append(['redist', [rng.choice([0., 0.25, 0.5, 0.75, 1.]) for _ in range(n)]])
         if rng.random() < 0.5: ops.append(['vle', sk, spec])                # the same call again
         else: ops.append(['vle'] + list(one_spec()))
+    if rng.random() < 0.25:
+        # the stream gets linked to another stream's data between two flashes (flash, link_with(flow=True), flash again)
+        l2, g2, _ = gen_flows(rng, [a + b > 0 or rng.random() < 0.2 for a, b in zip(base['l'], base['g'])])
+        ops += [['link', l2, g2, rng.choice([310., 330.]), rng.choice([90000., 101325.]), False], ['vle', sk, spec]]
     return {'kind': 'vleh', 'mode': mode, 'phases': base['phases'], 'l': base['l'], 'g': base['g'], 's': base['s'],
             'T0': base['T0'], 'P0': base['P0'], 'co': base['co'], 'draws': base['draws'] or [rng.random() for _ in range(8)],
             'ops': ops, 'spec': {}, 'sk': 'TP'}
 
-def apply_outside_op(case, s, op):
+def apply_outside_op(case, s, op, keep=None):
     """what happens to the stream between two calls; returns False for a 'vle' op"""
+    if op[0] == 'link':
+        # the stream is linked to another multi-phase stream: its flow data (and, with TP, its thermal condition) are REPLACED
+        e = env(); tmo = e['tmo']
+        other = tmo.MultiStream(None, T=op[3], P=op[4], phases=case['phases'], thermo=e['thermo'])
+        other.imol['l'] = np.array(op[1], float); other.imol['g'] = np.array(op[2], float)
+        if 's' in case['phases']: other.imol['s'] = np.array(case['s'], float)
+        s.link_with(other, flow=True, phase=False, TP=bool(op[5]))
+        if keep is not None: keep.append(other)
+        return True
     if op[0] == 'redist':
         l = np.array(fl(s.imol['l'].to_array())); g = np.array(fl(s.imol['g'].to_array())); tot = l + g
         newl = tot * np.array(op[1]); s.imol['l'] = newl; s.imol['g'] = tot - newl
@@ -541,10 +637,10 @@ def run_vleh(case):
     v = s.vle                      # one object for the whole history
     rec = Rec(case)
     p = install_stubs(rec, case, v) if case['mode'] == 'stub' else install_recorders(rec, v)
-    calls = []
+    calls = []; keep = []
     try:
         for op in case['ops']:
-            if apply_outside_op(case, s, op): continue
+            if apply_outside_op(case, s, op, keep): continue
             sk = op[1]
             c1 = dict(case, sk=sk, spec=op[2])
             spec = resolve_spec(c1, s)
@@ -573,9 +669,9 @@ def coq_vleh(case, out):
 
 def oracle_vleh(case):
     """the history on the real code with the real solvers: after every call conservation, non-negativity, placement"""
-    s = build_stream(case)
+    s = build_stream(case); keep = []
     for op in case['ops']:
-        if apply_outside_op(case, s, op): continue
+        if apply_outside_op(case, s, op, keep): continue
         sk = op[1]
         c1 = dict(case, sk=sk, spec=op[2])
         spec = resolve_spec(c1, s)
@@ -640,7 +736,7 @@ def run_lle(case):
     p = Patches()
     calls = []
     def solver(self, mol, T, lle_chemicals, single_loop):
-        fs = distinct_factors([rec.draw([0., 0.25, 0.5, 0.75, 1., 1.25, -0.25]) for m in mol])
+        fs = distinct_factors([rec.draw([0., 0.25, 0.5, 0.75, 0.875, 1.25, -0.25]) for m in mol])
         r = np.array([m * f for m, f in zip(mol, fs)], float)
         calls.append(['solve', fl(r)]); return r
     def pf(z, K, phi):
@@ -660,7 +756,7 @@ def run_lle(case):
             calls[-1][1] = float(r); calls[-1][3] = raw.get('rr', 0.)
             return r
         def solver(self, mol, T, lle_chemicals, single_loop):
-            fs = distinct_factors([rec.draw([0., 0.25, 0.5, 0.75, 1.]) for m in mol])
+            fs = distinct_factors([rec.draw([0., 0.25, 0.5, 0.75, 0.875]) for m in mol])
             r = np.array([m * f for m, f in zip(mol, fs)], float)
             calls.append(['solve', fl(r)]); return r
         p.set(bpf, 'solve_phase_fraction_Rashford_Rice', rr)
@@ -748,7 +844,7 @@ def run_vlle(case):
         finally:
             lsegs.append([list(c) for c in lcalls])
     def solver(self, mol, T, lle_chemicals, single_loop):
-        fs = distinct_factors([rec.draw([0., 0.25, 0.5, 0.75, 1.]) for m in mol])
+        fs = distinct_factors([rec.draw([0., 0.25, 0.5, 0.75, 0.875]) for m in mol])
         r = np.array([m * f for m, f in zip(mol, fs)], float)
         lcalls.append(['solve', fl(r)]); return r
     def pf(z, K, phi):
@@ -828,9 +924,12 @@ def orc_term(case, out):
     chem = out.get('chem') or {}
     Tc = q(chem.get('Tc', 0.)); Psat = q(chem.get('Psat', 0.)); Tsat = q(chem.get('Tsat', 0.))
     pair = lambda v: f'({q(v[0])}, {qlist(v[1])})'
-    b = tape_term('(0, [])', [(k, v) for k, kind, v in ev if kind == 'b'], pair)
-    d = tape_term('(0, [])', [(k, v) for k, kind, v in ev if kind == 'd'], pair)
-    vv = tape_term('[]', [(k, v) for k, kind, v in ev if kind == 'v'], qlist)
+    ev = [(e[0], e[1], e[2]) for e in out['events']]
+    args = {e[0]: e[3] for e in out['events']}
+    # bubble / dew / fixed-point tapes are keyed by the tick AND by the T / P the oracle was called with
+    b = '(tape1 (0, []) ' + clist([f'({cnat(k)}, {q(args[k][0])}, {pair(v)})' for k, kind, v in ev if kind == 'b']) + ')'
+    d = '(tape1 (0, []) ' + clist([f'({cnat(k)}, {q(args[k][0])}, {pair(v)})' for k, kind, v in ev if kind == 'd']) + ')'
+    vv = '(tape2 [] ' + clist([f'({cnat(k)}, {q(args[k][0])}, {q(args[k][1])}, {qlist(v)})' for k, kind, v in ev if kind == 'v']) + ')'
     iq = tape_term('([], 0)', [(k, v) for k, kind, v in ev if kind == 'iq'], lambda v: f'({qlist(v[0])}, {q(v[1])})')
     st = tape_term('0', [(k, v) for k, kind, v in ev if kind == 'st'], q)
     if case['mode'] == 'stub':
@@ -839,8 +938,8 @@ def orc_term(case, out):
         xh = f'(fun _ s T _ => lin_xH {lin} s T)'
         hp = f'(fun _ gas mol T _ => lin_Hp {lin} gas mol T)'
     else:
-        xh = '(fun k _ _ _ => ' + tape_term('0', [(k, v) for k, kind, v in ev if kind == 'xh'], q) + ' k)'
-        hp = '(fun k _ _ _ _ => ' + tape_term('0', [(k, v) for k, kind, v in ev if kind == 'hp'], q) + ' k)'
+        xh = '(fun k _ T P => tape2 0 ' + clist([f'({cnat(k)}, {q(args[k][0])}, {q(args[k][1])}, {q(v)})' for k, kind, v in ev if kind == 'xh']) + ' k T P)'
+        hp = '(fun k _ _ T P => tape2 0 ' + clist([f'({cnat(k)}, {q(args[k][0])}, {q(args[k][1])}, {q(v)})' for k, kind, v in ev if kind == 'hp']) + ' k T P)'
     return (f'(mkorc {Tc} (fun _ => {Psat}) (fun _ => {Tsat}) {q(out["lims"][0])} {q(out["lims"][1])} '
             f'{b} {d} {vv} {iq} {xh} {hp} (fun k _ _ _ _ => {st} k))')
 
